@@ -17,6 +17,7 @@ COUNTING = {
 
 def native_bounds(repo, rep, rule):
     cf = cnative.core(repo)
+    cnative.pointer_aliases(cf)
     # R-C04-1 must hold for the neighbour-table content ranges
     from . import c04
     scratch = Report("C04-internal")
